@@ -215,7 +215,7 @@ macro_rules! c17_shape {
             let costs: [u8; T] = kani::any();
             let mut t = 0;
             while t < T {
-                kani::assume(costs[t] >= 1 && costs[t] <= 3);
+                kani::assume(costs[t] >= 1);
                 t += 1;
             }
             // productivity witness: a rank per rule such that every rule has a production whose
@@ -255,7 +255,7 @@ macro_rules! c17_shape {
             // (min,+): the true minimum is the greatest vector c with c[A] <= cost(p) for every
             // production p of A.  (a) the result is such a vector AND attained by some production;
             // (b) every such vector X is <= the result.
-            let x: [u8; R] = kani::any();
+            let x: [u16; R] = kani::any();
             let mut r_sub = true;
             let mut x_sub = true;
             let mut attained = [false; R];
@@ -319,7 +319,7 @@ macro_rules! c17_shape {
             let costs: [u8; T] = kani::any();
             let mut t = 0;
             while t < T {
-                kani::assume(costs[t] >= 1 && costs[t] <= 3);
+                kani::assume(costs[t] >= 1);
                 t += 1;
             }
             let sg = g.sentence_generator(|t| costs[usize::from(t)]);
@@ -350,7 +350,7 @@ macro_rules! c17_shape {
             let costs: [u8; T] = kani::any();
             let mut t = 0;
             while t < T {
-                kani::assume(costs[t] >= 1 && costs[t] <= 3);
+                kani::assume(costs[t] >= 1);
                 t += 1;
             }
             let sg = g.sentence_generator(|t| costs[usize::from(t)]);
